@@ -97,6 +97,7 @@ type Case struct {
 	FlushFirst bool   `json:"flush_first"`  // call FlushAllFlushers() at that hit before dying (the flusher fires exactly there)
 	FlushAtAll string `json:"flush_at_all"` // call FlushAllFlushers() at EVERY hit of this point (flusher interleaving)
 	CountHits  bool   `json:"count_hits"`   // report how often each point was hit
+	ConnDelaysMs []int `json:"conn_delays_ms,omitempty"` // netsim: one-way latency per connection (index = connection)
 	Observe    bool   `json:"observe"`      // flush + load the receiver's sidecars continuously and compare every claimed chunk with the source
 	DelayPoint string `json:"delay_point"`  // sleep DelayMs at every hit of this point (optionally only when its 2nd arg == DelayArg)
 	DelayMs    int    `json:"delay_ms"`
@@ -336,7 +337,11 @@ func makeConns(c Case) (send transfer.Conn, recv transfer.Conn, closers []func()
 	switch c.Transport {
 	case "", "netsim", "netsim-eager":
 		for i := 0; i < n; i++ {
-			a, b := netsim.NewPair(netsim.Options{Lazy: c.Transport != "netsim-eager"})
+			nopt := netsim.Options{Lazy: c.Transport != "netsim-eager"}
+			if i < len(c.ConnDelaysMs) {
+				nopt.Delay = time.Duration(c.ConnDelaysMs[i]) * time.Millisecond
+			}
+			a, b := netsim.NewPair(nopt)
 			for _, f := range c.Faults {
 				if f.Conn == i {
 					a.AddFault(netsim.Fault{FromA: f.FromA, Stream: f.Stream, AtoB: f.AtoB, AtByte: f.AtByte, Kind: f.Kind})
